@@ -67,7 +67,7 @@ def promotion_script(draw):
         if k >= 2:
             multi += 1
         vals = [draw(st.sampled_from(["1", "2.5", "'s'", "True", "analog_read('A0')", "[1, 2]"])) for _ in group]
-        kind = draw(st.sampled_from(["if", "ifelse", "ifelif", "while", "for", "try"]))
+        kind = draw(st.sampled_from(["if", "ifelse", "ifelif", "while", "for", "try", "else_only", "elif_only", "except_only", "split"]))
         asg = [f"    {n} = {v}" for n, v in zip(group, vals)]
         if kind == "if":
             lines += ["if analog_read('A0') > 5:"] + asg
@@ -79,6 +79,15 @@ def promotion_script(draw):
             lines += ["w = 2", "while w > 0:", "    w = w - 1"] + asg
         elif kind == "for":
             lines += ["for i in range(2):"] + asg
+        elif kind == "else_only":
+            lines += ["if analog_read('A0') > 5:", "    sleep(1)", "else:"] + asg
+        elif kind == "elif_only":
+            lines += ["if analog_read('A0') > 5:", "    sleep(1)", "elif analog_read('A1') > 5:"] + asg + ["else:", "    sleep(2)"]
+        elif kind == "except_only":
+            lines += ["try:", "    sleep(1)", "except Exception:"] + asg
+        elif kind == "split":
+            h = max(1, k // 2)
+            lines += ["if analog_read('A0') > 5:"] + asg[:h] + ["else:"] + (asg[h:] or ["    sleep(1)"])
         else:
             lines += ["try:"] + asg + ["except Exception:"] + list(reversed(asg))
         for n in group:
